@@ -2,7 +2,7 @@
 from . import daemon
 from .common import finish
 
-SUM = ("evaluations", "distinct", "polls", "restarts", "reboots", "suspends", "answers_without_a_system_clock_read", "trusted_in_sync_phase", "answers_in_sync_phase", "order_checks", "gap_checks", "msg_checks")
+SUM = ("evaluations", "distinct", "polls", "restarts", "reboots", "suspends", "polls_with_short_phc_reads", "answers_without_a_system_clock_read", "trusted_in_sync_phase", "answers_in_sync_phase", "order_checks", "gap_checks", "msg_checks")
 DICTS = ("answers_by_status", "outcomes_by_kind", "adversarial_instants", "client_errors")
 
 
@@ -46,6 +46,7 @@ def run(ctx):
         "restarts": agg["restarts"],
         "machine_reboots_with_surviving_segment": agg.get("reboots", 0),
         "machine_suspends": agg.get("suspends", 0),
+        "polls_with_short_phc_reads": agg.get("polls_with_short_phc_reads", 0),
         "trusted_in_sync_phase": agg["trusted_in_sync_phase"],
         "answers_in_sync_phase": agg["answers_in_sync_phase"],
         "client_errors": agg["client_errors"],
